@@ -201,11 +201,11 @@ def tlc_ok(r, what):
 def _chars(x):
     """Text in scenario records is either a JSON string or an array of 1-char strings / ints (bytes)."""
     if isinstance(x, str):
-        return x
+        return x.replace("\u2401", "\x01")
     if isinstance(x, list):
-        if all(isinstance(c, int) for c in x):
+        if x and all(isinstance(c, int) for c in x):
             return bytes(x).decode("utf-8", "surrogateescape")
-        return "".join(x)
+        return "".join(x).replace("\u2401", "\x01")     # U+2401 stands for the control character U+0001
     raise ToolError("bad text %r" % (x,))
 
 
